@@ -70,6 +70,19 @@ CHECKS = {
              "against JsonTransform.tla in C18).",
         technique="TLC-enumerated type constructions; metamorphic relations between encoder variants with structural minimisation",
         engine="GoTypes", design="8/C13"),
+    "C15": dict(
+        level="model_checking",
+        text="KeyLookup.tla states the reference selection rule (exact match, then first case-folded match) and models go-json's "
+             "bitmap matcher (lower-cased sorted names, per-position bit sets, lowest candidate, early-match length test); TLC checks "
+             "that the matcher refines the reference for every eligible name set and key over {a,A,b,_} (names <= 2, keys <= 3, raw or "
+             "escaped items) and that the code's original raw-length test does not (named deviation must yield its counterexample). "
+             "TLC-emitted (names, key items, expected field) cases are replayed into reflect-built structs padded to the 1..8 / 9..16 / "
+             ">16 field regimes, in buffer, stream and one-byte-stream mode; a larger name/key space (13-symbol alphabet, >64-byte names) "
+             "and ~1000 embedded-struct conflict shapes use encoding/json as the oracle.",
+        note="trusted: TLC, KeyLookup.tla (cross-checked with encoding/json on every emitted case; disagreement = exit 2), "
+             "encoding/json as the yardstick the property names.",
+        technique="TLA+ refinement check of the bitmap matcher against the reference rule; TLC-emitted key-selection cases replayed into real structs; encoding/json differential for the wider space",
+        engine="KeyLookup", design="8/C15"),
     "C16": dict(
         level="model_checking",
         text="IntCodec.tla states integer literal semantics on digit sequences (bounds derived by doubling, length-then-lexicographic "
@@ -179,8 +192,10 @@ def main():
 
 NA = {}
 HOOK_COMMITS = ["cb16685"]
-FIX_COMMITS = ["3ba2124", "35e540e", "5d9c0a9", "182cdbb", "c177d40", "4cc9b5c", "e04537c", "f4cd737"]
+FIX_COMMITS = ["3ba2124", "35e540e", "5d9c0a9", "182cdbb", "c177d40", "4cc9b5c", "e04537c", "f4cd737", "4b54f48"]
 ENGINES = [
+    dict(name="KeyLookup", path="specs/KeyLookup.tla", serves_properties=["C15"],
+         kind_free_text="TLA+ reference field-selection rule + implementation-shaped bitmap matcher; refinement check, named deviation, case export"),
     dict(name="GoTypes", path="specs/GoTypes.tla", serves_properties=["C01", "C02", "C03", "C04", "C13"],
          kind_free_text="TLA+ type-construction state machine; TLC enumerates and exports every construction up to a bound"),
     dict(name="StrCodec", path="specs/StrCodec.tla", serves_properties=["C17"],
